@@ -3,6 +3,7 @@ import Proofs.RenderSize
 import Proofs.RenderTrunc
 import Proofs.RenderPad
 import Proofs.RenderParses
+import Proofs.ParsePad
 /-!
 # C08 — rendered messages respect the size limit; truncation and padding are exact
 
@@ -84,20 +85,48 @@ theorem truncation_prefix (m : Message) (lim : Nat) (w : Bytes) (h : m.toWire li
     rw [tcAt_of_lt m k hk]
     simp
 
-/-- "returns a parseable message": full statement — for every well-formed `m`, `m.toWire lim true = .ok w →
-∃ m', parseMessage cfg w = .ok m'`.  Proved for the class of messages for which C03's render-then-parse theorem is
-proved (`MsgOkT`: absolute names, with or without OPT, with or without TSIG, no padding, not an update): the truncated rendering parses, without trailing
-junk, to the kept prefix of `m` (up to the ASCII case of compressed names), with TC as stated in
-`truncation_prefix`.  What is missing: the same cases as for `C03.parse_render_partial`. -/
-theorem result_parses_partial (m : Message) (lim : Nat) (w : Bytes) (hok : MsgOkT m) (h : m.toWire lim true = .ok w)
-    (cfg : PCfg) (horg : cfg.origin = none) (hnorr : cfg.oneRRPerRRset = false) (hkey : cfg.hasKey = true) :
-    ∃ m', parseMessage cfg w = .ok m' ∧
-      (m'.simT m ∨ ∃ k, k < m.items.length ∧ m'.simT (m.cut k (m.tcAt k))) := by
+/-- "… counts consistent … and still carrying the configured OPT and TSIG records": whatever is truncated, the header of
+the result counts exactly the kept records per section plus one for the OPT record if the message has one and one for
+the TSIG record if it has one — `prefer_truncation` never drops OPT or TSIG (they are rendered after the section
+loops, in the space reserved for them), and never leaves a count that disagrees with the records present.  `mc` is
+the message actually rendered: `m` itself, or `m` cut to its first `k` record sets (`truncation_prefix`). -/
+theorem truncation_counts_opt_tsig (m : Message) (lim : Nat) (w : Bytes) (h : m.toWire lim true = .ok w) :
+    ∃ mc : Message, (mc = m ∨ ∃ k, k < m.items.length ∧ mc = m.cut k (m.tcAt k)) ∧ mc.opt = m.opt ∧ mc.tsig = m.tsig ∧
+      mc.toWire lim false = .ok w ∧
+      w.take 12 = u16 m.id ++ u16 mc.flags ++ u16 mc.q.length ++ u16 (rrCount mc.an) ++ u16 (rrCount mc.au)
+        ++ u16 (rrCount mc.ad + (if m.opt.isSome then 1 else 0) + (if m.tsig.isSome then 1 else 0)) := by
+  have key : ∀ mc : Message, mc.toWire lim false = .ok w →
+      w.take 12 = u16 mc.id ++ u16 mc.flags ++ u16 mc.q.length ++ u16 (rrCount mc.an) ++ u16 (rrCount mc.au)
+        ++ u16 (rrCount mc.ad + (if mc.opt.isSome then 1 else 0) + (if mc.tsig.isSome then 1 else 0)) := by
+    intro mc hmc
+    unfold Message.toWire at hmc
+    cases hr : mc.render lim false with
+    | error e => rw [hr] at hmc; simp at hmc
+    | ok r =>
+      rw [hr] at hmc
+      simp at hmc; subst hmc
+      exact (render_counts mc lim r hr).2
   rcases toWire_truncation m lim w h with h1 | ⟨k, hk, h2⟩
-  · obtain ⟨m', hp, hs⟩ := parse_toWire_full m lim w hok h1 cfg horg hnorr hkey
-    exact ⟨m', hp, Or.inl hs⟩
-  · obtain ⟨m', hp, hs⟩ := parse_toWire_full (m.cut k (m.tcAt k)) lim w (hok.cut k _) h2 cfg horg hnorr hkey
-    exact ⟨m', hp, Or.inr ⟨k, hk, hs⟩⟩
+  · exact ⟨m, Or.inl rfl, rfl, rfl, h1, key m h1⟩
+  · exact ⟨m.cut k (m.tcAt k), Or.inr ⟨k, hk, rfl⟩, rfl, rfl, h2, key _ h2⟩
+
+/-- "returns a parseable message … still carrying the configured OPT and TSIG records": for every well-formed message
+(`MsgOkP`: absolute names, opcode other than UPDATE, with or without OPT — with or without a padding request —, with or
+without TSIG), at any limit, the rendering with `prefer_truncation` parses, without trailing junk, to the kept prefix
+of `m` (`m` itself, or `m.cut k tc` as in `truncation_prefix`) up to the ASCII case of compressed names, with its TSIG
+record and with its OPT record — the original options, followed when padding was requested by one PADDING option of
+fewer than `pad` zero octets (`OptPadRel`).  Remaining gap to the full statement: relative names / origins, and
+update messages (for which `C03.update_forms` gives the untruncated round trip). -/
+theorem result_parses (m : Message) (lim : Nat) (w : Bytes) (hok : MsgOkP eqvSpec m) (h : m.toWire lim true = .ok w)
+    (cfg : PCfg) (horg : cfg.origin = none) (hnorr : cfg.oneRRPerRRset = false) (hkey : cfg.hasKey = true) :
+    ∃ m' opt', parseMessage cfg w = .ok m' ∧ OptPadRel m.pad m.opt opt' ∧
+      (m'.simT eqvSpec { m with opt := opt' } ∨
+        ∃ k, k < m.items.length ∧ m'.simT eqvSpec { m.cut k (m.tcAt k) with opt := opt' }) := by
+  rcases toWire_truncation m lim w h with h1 | ⟨k, hk, h2⟩
+  · obtain ⟨m', opt', hp, hs, hr⟩ := parse_toWire_pad m lim w hok h1 cfg horg hnorr hkey
+    exact ⟨m', opt', hp, hr, Or.inl hs⟩
+  · obtain ⟨m', opt', hp, hs, hr⟩ := parse_toWire_pad (m.cut k (m.tcAt k)) lim w (hok.cut k _) h2 cfg horg hnorr hkey
+    exact ⟨m', opt', hp, hr, Or.inr ⟨k, hk, hs⟩⟩
 
 /-- "when padding is requested the final length, TSIG included, is a multiple of the block size": for every message
 that carries an OPT record and requests padding (`pad ≠ 0`), with or without TSIG, at any limit, with or without
